@@ -252,6 +252,22 @@ def c20_d(ctx: Ctx):
         if canon(b.value) != DEST:
             out.append(ctx.viol(R, f, b, f"the recorded version is {canon(b.value)}, not the destination of the step"))
     cfgnames = {canon(t.value) for b in bumps for t in b.targets if isinstance(t, ast.Subscript)}
+    cm = ctx.prog.funcs.get(MIG + ":_collect_migrations")
+    kc = MIG + ":_collect_migrations|newer-is-strict"
+    if cm is None:
+        out.append(ctx.inc(R, None, None, "_collect_migrations not found", construct=kc))
+    else:
+        svp = cm.params[-1] if cm.params else "schema_version"
+        guards = [n for n in body_nodes(cm) if isinstance(n, ast.If) and isinstance(n.test, ast.Compare) and len(n.test.ops) == 1
+                  and any(isinstance(x, ast.Raise) for st in n.body for x in ast.walk(st)) and isinstance(n.test.ops[0], (ast.Gt, ast.GtE, ast.Lt, ast.LtE))]
+        if not guards:
+            out.append(ctx.inc(R, cm, cm.node, "no 'configured version newer than supported' guard found", construct=kc))
+        for gd in guards:
+            if isinstance(gd.test.ops[0], (ast.GtE, ast.LtE)):
+                out.append(ctx.viol(R, cm, gd, f"the 'newer than supported' guard is `{canon(gd.test)}`: it also fires when the project is exactly at the supported version, so apply_migrations on an "
+                                    "up-to-date project raises RuntimeError instead of doing nothing", construct=kc))
+            else:
+                out.append(ctx.ok(R, cm, gd, f"`{canon(gd.test)}`: only a strictly newer configured version is refused; an up-to-date project needs no migration", construct=kc))
     locks = [c for c in body_nodes(f) if isinstance(c, ast.Call) and (dotted(c.func) or "").split(".")[-1] in ("FileLock", "SoftFileLock")]
     unl = [c for c in body_nodes(f) if isinstance(c, ast.Call) and common.ext_name(ctx, f, c) in ("os.unlink", "os.remove") and "lock" in canon(c).lower()]
     for lk in locks:
@@ -365,6 +381,23 @@ def c20_f(ctx: Ctx):
             line = [l.strip() for l in spec.splitlines() if l.strip().startswith("schema_version")]
             if line and line[0].replace(" ", "").startswith("schema_version=string("):
                 out.append(ctx.ok(R, None, None, f"{mq}: the config spec accepts any schema_version string ({line[0]})", construct=k))
+                if mq == "signac._config":
+                    import re as _re
+                    dm = _re.search(r"default\s*=\s*['\"]?(\d+)['\"]?", line[0])
+                    cur = ctx.fold(ast.Name(id="SCHEMA_VERSION", ctx=ast.Load()), None, ctx.prog.mod("signac.version"))
+                    kd = mq + "|_CFG-default"
+                    try:
+                        curi = int(cur)
+                    except Exception:
+                        curi = None
+                    if dm and curi is not None and int(dm.group(1)) >= curi:
+                        out.append(ctx.viol(R, None, None, f"{mm.rel}: the config spec defaults schema_version to {dm.group(1)!r}, the current schema ({cur!r}): a configuration that declares no "
+                                            "version (empty, hand-written, left by an interrupted init) is accepted as current instead of being refused with IncompatibleSchemaVersion",
+                                            construct=kd))
+                    elif dm and curi is not None:
+                        out.append(ctx.ok(R, None, None, f"{mq}: a configuration without schema_version counts as version {dm.group(1)} (< {cur}): it is refused, not silently accepted", construct=kd))
+                    else:
+                        out.append(ctx.inc(R, None, None, f"{mq}: default of schema_version not found in {line[0]!r}", construct=kd))
             elif line:
                 out.append(ctx.viol(R, None, None, f"{mm.rel}: the config spec restricts schema_version to {line[0]}: a configuration declaring another version fails validation, the loader's "
                                     "RuntimeError is read as 'no legacy project here' and the incompatible project is reported as missing instead of refused", construct=k))
